@@ -176,7 +176,10 @@ def _dfs(build, spec, stack, report, budget):
                 ex = run_execution(scenario, prefix, opts)
                 if not ex.diverged:
                     break
-        stats["executions"] += 1
+        part, parts = spec.get("part", (0, 1))
+        root_of_other_part = not prefix and part != 0
+        if not root_of_other_part:
+            stats["executions"] += 1
         if prefix:
             stats["deviating"] += 1
         stats["points"] += ex.points
@@ -210,11 +213,15 @@ def _dfs(build, spec, stack, report, budget):
             break
         # children: every alternative at every later point within the bound
         cost = ex.cost_before(len(prefix))
+        child = 0
         for index in range(len(prefix), len(ex.trace)):
             names, costs, chosen, _kind = ex.trace[index]
             for alt in range(len(names)):
                 if alt != chosen and cost + costs[alt] <= bound:
-                    stack.append(ex.choices[:index] + [names[alt]])
+                    child += 1
+                    # a scenario may be split over several shards by its first deviation
+                    if prefix or child % parts == part:
+                        stack.append(ex.choices[:index] + [names[alt]])
             cost += costs[chosen]
     return stats, stack
 
